@@ -456,11 +456,22 @@ func (w *world) guarded(f func()) (panicked string, timedOut bool) {
 	case p := <-w.run.out:
 		return p, false
 	case <-time.After(watchdog):
+	}
+	// not back after 2 s: a deadlock, or a machine so loaded that the worker goroutine was not scheduled — a slow
+	// machine is not a violation, so the call gets a generous second chance before it is declared blocked
+	select {
+	case p := <-w.run.out:
+		slowCalls++
+
+		return p, false
+	case <-time.After(10 * watchdog):
 		w.dead = true
 
 		return "", true
 	}
 }
+
+var slowCalls int
 
 func (w *world) reg(e any, id int) {
 	if e == nil {
@@ -1847,6 +1858,7 @@ func main() {
 		runCase(r, sub, genCase(rng, 40, mode))
 	}
 	r.Extra["deadlocks"] = deadlocks
+	r.Extra["slow_calls"] = slowCalls
 	reentrantTraversals(r)
 	concurrentSmoke(r)
 	readerSnapshots(r)
